@@ -433,6 +433,7 @@ type refreshRec struct {
 func checkRefresh(c RefreshCase) error {
 	v := &verdict{}
 	inflight := false
+	overdue := false
 	nRefresh, nErr := 0, 0
 	var smu sync.Mutex
 	runBubble("c18.refresh", c, "the refresh loop or Shutdown is blocked", func() {
@@ -445,8 +446,15 @@ func checkRefresh(c RefreshCase) error {
 		consN := 0
 		t0 := time.Now()
 		ds := make([]time.Duration, len(c.DelaysMS))
+		// Delays of zero or less ("the next refresh is overdue") are legal
+		// results of a schedule and mean "at once"; they are only generated
+		// when every refresh takes time, so that virtual time advances.
+		overdueOK := slices.Min(c.DursMS) >= 1
 		for i, d := range c.DelaysMS {
-			ds[i] = time.Duration(max(1, d)) * time.Millisecond
+			if d < 1 && !overdueOK {
+				d = 1
+			}
+			ds[i] = time.Duration(d) * time.Millisecond
 		}
 		si, ri := 0, 0
 		shuttingDown := false
@@ -551,6 +559,10 @@ func checkRefresh(c RefreshCase) error {
 			d := ds[k%len(ds)]
 			if grid > 0 {
 				d = grid - tcur%grid
+			}
+			if d < 0 {
+				overdue = true
+				d = 0 // an overdue refresh starts at once
 			}
 			longest = max(longest, d)
 			tcur += d
@@ -697,6 +709,9 @@ func checkRefresh(c RefreshCase) error {
 	if c.GridMS > 0 {
 		vp.Class("refresh:time-dependent-(grid)-schedule")
 	}
+	if overdue {
+		vp.Class("refresh:schedule-returned-a-negative-delay")
+	}
 	if c.CancelStartMS > 0 && c.CancelStartMS < c.ShutdownMS {
 		vp.Class("refresh:Start-context-cancelled-before-Shutdown")
 	}
@@ -726,7 +741,7 @@ var refreshProp = vp.Register(vp.Prop[RefreshCase]{
 	Kind: "c18.refresh", Base: 5000,
 	Gen: func(t *rapid.T) RefreshCase {
 		return RefreshCase{
-			DelaysMS:      rapid.SliceOfN(rapid.IntRange(1, 50), 1, 5).Draw(t, "delays"),
+			DelaysMS:      rapid.SliceOfN(rapid.OneOf(rapid.IntRange(1, 50), rapid.IntRange(1, 50), rapid.SampledFrom([]int{-7, -1, 0, 1})), 1, 5).Draw(t, "delays"),
 			DursMS:        rapid.SliceOfN(rapid.IntRange(0, 30), 1, 5).Draw(t, "durs"),
 			Outcomes:      rapid.SliceOfN(rapid.IntRange(0, 2), 1, 5).Draw(t, "outcomes"),
 			ShutdownMS:    rapid.IntRange(0, 300).Draw(t, "shutdown"),
